@@ -979,7 +979,10 @@ def eq_pair(oa, ob, ka, kb, acc, size=None):
                               "%s: a %s b raised %s: %s (comparing two keys of the same type must not raise)"
                               % (desc, op, type(e).__name__, e), case, script=script, size=size)
             else:
-                acc.observe("cross-type comparison %s %s %s raises %s" % (ta, op, tb, type(e).__name__))
+                # "equality holds exactly when two keys have the same type, ...": for keys of two types it does not hold, i.e. it is False
+                acc.violation("C08/eq/cross-type/raises-%s@%s" % (type(e).__name__, exc_site(e)),
+                              "%s: a %s b (a %s and a %s) raised %s: %s; keys of different types are unequal, the comparison must answer"
+                              % (desc, op, ta, tb, type(e).__name__, e), case, script=script, size=size)
             continue
         if r is NotImplemented or not isinstance(r, (bool, int)):
             acc.observe("%s %s %s returns a %s" % (ta, op, tb, type(r).__name__))
